@@ -32,6 +32,8 @@ class World:
         self.mkf("p", lambda n, m: n * 100 + m, ["n", "m"])
         g["a"] = nx.Alias(g["p"], name="a")
         self.defs["a"] = ("alias", ["p"])
+        g["aa"] = nx.Alias(g["a"], name="aa")          # an alias of an alias follows the alias it was defined on, wherever that one points later
+        self.defs["aa"] = ("alias", ["a"])
         g["t"] = nx.Tuple([g["n"], g["d"]], name="t")
         self.defs["t"] = ("tuple", ["n", "d"])
         self.mkf("u", lambda t: sum(t), ["t"])
@@ -116,10 +118,10 @@ class World:
             return "raises:" + type(e).__name__
 
 
-READ = ["n", "m", "p", "a", "t", "u", "fb", "arr", "gq", "sq", "sl"]
+READ = ["n", "m", "p", "a", "aa", "t", "u", "fb", "arr", "gq", "sq", "sl"]
 OPS = [("set", "c", 2.0), ("set", "c", -1.0), ("set", "c", 4.0), ("set", "d", 20.0), ("set", "e", 7.0), ("read", "p"), ("read", "n"), ("read", "a"), ("read", "u"), ("read", "fb"), ("read", "arr"),
        ("freeze", "n"), ("unfreeze", "n"), ("freeze", "p"), ("unfreeze", "p"), ("freeze", "t"), ("unfreeze", "t"), ("setfunc", "n"), ("setitem", "t"), ("setitem_arr", "arr"), ("replace", "d"), ("replace_child", "p"),
-       ("add_child", "m"), ("freeze_stale", "m"), ("unfreeze", "m"), ("freeze_stale", "n"), ("set_inplace", "lv")]
+       ("add_child", "m"), ("freeze_stale", "m"), ("unfreeze", "m"), ("freeze_stale", "n"), ("set_inplace", "lv"), ("repoint_alias", "a")]
 
 
 def apply(w, op):
@@ -127,6 +129,9 @@ def apply(w, op):
     g = w.g
     if kind == "set":
         g[k].value = op[2]; w.par[k] = op[2]
+    elif kind == "repoint_alias":          # the inner alias is pointed at another node: everything defined on it follows
+        tgt = "n" if w.defs["a"][1] == ["p"] else "p"
+        g["a"].ref = g[tgt]; w.defs["a"] = ("alias", [tgt])
     elif kind == "set_inplace":          # the value object is updated in place and assigned again (the usual way to update an array-valued parameter): an assignment like any other
         buf = g[k].value
         buf[0] += 1.0
